@@ -136,6 +136,45 @@ def torus(rng, nu, nv, R=2.0, r=0.8):
     return V, F
 
 
+def polygon(rng, n_sides, n_rings=2, jitter=0.0):
+    """flat regular polygon, one border vertex per corner (exact corner angles pi - 2 pi / n), rings jittered inside"""
+    V = [[0.0, 0.0, 0.0]]
+    for r in range(1, n_rings + 1):
+        for s in range(n_sides):
+            a = 2 * math.pi * s / n_sides
+            rad = r / n_rings
+            if r < n_rings and jitter:
+                a += rng.uniform(-jitter, jitter)
+                rad += rng.uniform(-jitter, jitter) / 2
+            V.append([rad * math.cos(a), rad * math.sin(a), 0.0])
+    idx = lambda r, s: 1 + (r - 1) * n_sides + (s % n_sides)
+    F = [(0, idx(1, s), idx(1, s + 1)) for s in range(n_sides)]
+    for r in range(1, n_rings):
+        for s in range(n_sides):
+            a, b, c, d = idx(r, s), idx(r + 1, s), idx(r + 1, s + 1), idx(r, s + 1)
+            F += [(a, b, c), (a, c, d)]
+    return V, F
+
+
+def rectangle(rng, nx, ny, jitter=0.15):
+    """flat axis-aligned rectangle: exact right-angle corners and straight sides, interior vertices jittered"""
+    V = []
+    for i in range(nx + 1):
+        for j in range(ny + 1):
+            x, y = float(i), float(j)
+            if 0 < i < nx and 0 < j < ny:
+                x += rng.uniform(-jitter, jitter)
+                y += rng.uniform(-jitter, jitter)
+            V.append([x, y, 0.0])
+    idx = lambda i, j: i * (ny + 1) + j
+    F = []
+    for i in range(nx):
+        for j in range(ny):
+            a, b, c, d = idx(i, j), idx(i + 1, j), idx(i + 1, j + 1), idx(i, j + 1)
+            F += [(a, b, c), (a, c, d)] if (i + j) % 2 == 0 else [(a, b, d), (b, c, d)]
+    return V, F
+
+
 def perturb(rng, V, amp):
     return [[x + rng.uniform(-amp, amp) for x in p] for p in V]
 
@@ -146,24 +185,35 @@ def random_mesh(rng, tier="quick"):
     for _ in range(50):
         r = rng.random()
         planar = False
-        if r < 0.34:
+        if r < 0.30:
             nx, ny = rng.choice([(2, 2), (3, 2), (3, 3), (4, 3), (3, 4)] + ([(5, 4), (5, 5)] if big else []))
             planar = rng.random() < 0.5
             V, F = grid(rng, nx, ny, planar, hole=rng.random() < 0.35, jitter=rng.choice([0.0, 0.1, 0.2]))
             kind = "grid%dx%d" % (nx, ny)
-        elif r < 0.46:
+        elif r < 0.42:
             k = rng.choice([3, 4, 5, 6, 7])
             V, F = disk_fan(rng, k, jitter=rng.choice([0.0, 0.15]))
             planar = all(p[2] == 0.0 for p in V)
             kind = "fan%d" % k
-        elif r < 0.54:
+        elif r < 0.50:
+            # exact border corners: odd multiples of pi/order occur (right angles with order 2/6, 135 degrees with order 4 ..)
+            if rng.random() < 0.5:
+                ns = rng.choice([4, 6, 8, 8, 12])
+                V, F = polygon(rng, ns, n_rings=rng.choice([2, 3]) if ns <= 8 else 2, jitter=rng.choice([0.0, 0.1]))
+                kind = "polygon%d" % ns
+            else:
+                nx, ny = rng.choice([(3, 2), (3, 3), (4, 3)])
+                V, F = rectangle(rng, nx, ny)
+                kind = "rect%dx%d" % (nx, ny)
+            planar = True
+        elif r < 0.56:
             n = rng.choice([2, 3])
             V, F = eqtri_n(rng, n)
             planar = True
             if rng.random() < 0.5:
                 V = [[p[0] + rng.uniform(-0.08, 0.08), p[1] + rng.uniform(-0.08, 0.08), 0.0] for p in V]
             kind = "eqtri%d" % n
-        elif r < 0.62:
+        elif r < 0.63:
             V, F = open_box(rng)
             if rng.random() < 0.5:
                 V = perturb(rng, V, 0.05)
